@@ -144,11 +144,8 @@ func (cs *concurrentStrategy) Dec(APIStream public_types.APIStreamI) error {
 	requestData, found := cs.allowedReq[reqID]
 	cs.mutex.Unlock()
 
-	if !found {
-		return nil
-	}
-
-	if cs.checkReqStatus(reqID, reqAllowed) {
+	// no early return when this level has no status: the ancestors may still hold the request's slot
+	if found && cs.checkReqStatus(reqID, reqAllowed) {
 		err := cs.sharedContext.SRem(cs.concurrentSetKey, requestData.member)
 		if err != nil {
 			return err
